@@ -55,6 +55,10 @@ def numeval(t, env, extra_uf=None, cache=None):
         if kind == z3.Z3_OP_UNINTERPRETED:
             name = d.name()
             if not ch:
+                if name == "pi":
+                    return math.pi
+                if name == "sqrt_half":
+                    return math.sqrt(0.5)
                 if name not in env:
                     raise CannotEvaluate(f"no value for {name}")
                 return env[name]
